@@ -177,7 +177,7 @@ theorem select_exact_abs (ns : List Node) (p : List Str) (hp : WFPath p) :
   congr 1
   apply List.filter_congr
   intro n _
-  simp only [Function.comp, sMatches, absN, absNode]
+  simp only [Function.comp, sMatches, absN]
   by_cases h : n.name = joinDot p
   · simp [h, splitDot_joinDot p hp]
   · have : splitDot n.name ≠ p := by
@@ -320,7 +320,7 @@ def conc : SStmt → Option Item
 /-- side conditions of the proved fragment, evaluated in the current specification environment:
     well-formed paths and request texts; an injected definition takes a node of its own type;
     integer nodes stay dimensionless (unit conversion of integers is C14's business); an import
-    selects at least one node and its destinations are pairwise different -/
+    selects at least one node -/
 def InFrag (senv : SEnv) : SStmt → Prop
   | .defn path kw _ sv unit =>
     WFPath path ∧ isTyped kw = true ∧
@@ -338,17 +338,16 @@ def InFrag (senv : SEnv) : SStmt → Prop
      | _ => False)
   | .imp dest source q =>
     WFSource source ∧ WFDest dest ∧ '{' ∉ joinDot dest ∧ '{' ∉ source.getD [] ++ '?' :: renderQ q ∧ WFQ q ∧
-    ∀ ss, sLookup senv source = some ss →
-      select q ss ≠ [] ∧ ((select q ss).map (fun n => (sReroot dest q n).path)).Nodup
+    ∀ ss, sLookup senv source = some ss → select q ss ≠ []
   | _ => False
 
 theorem absEnv_nodes (env : Env) (ns : List Node) (ps : List (Nat × Str)) :
     absEnv { env with parents := ps, nodes := ns } = { absEnv env with nodes := ns.map absN } := rfl
 
 theorem good_conf {tbl : UnitTable} {n : Node} (hg : Good tbl n) :
-    ∃ v, n.value = some v ∧ Conf n.kw v ∧ (absN n).value = v := by
+    ∃ v, n.value = some v ∧ Conf n.kw v ∧ (absN n).value = some v := by
   obtain ⟨_, ⟨v, hv, hc⟩, _⟩ := hg
-  exact ⟨v, hv, (conforms_conf n.kw n.dims v v hc).1, by simp [absN, absNode, hv]⟩
+  exact ⟨v, hv, (conforms_conf n.kw n.dims v v hc).1, by simp [absN, hv]⟩
 
 /-- what `sEval` of an exact injection says about the model's request -/
 theorem sEval_inj (tbl : UnitTable) (env : Env) (hinv : Inv tbl env) (source : Option Str)
@@ -371,12 +370,13 @@ theorem sEval_inj (tbl : UnitTable) (env : Env) (hinv : Inv tbl env) (source : O
         simp only [hsel] at h
         obtain ⟨src, hreq, hgood, habs⟩ := request_exact tbl env hinv source hws p hp hq ss s hl hsel
         obtain ⟨vs, hvs, hconf, hval⟩ := good_conf hgood
-        cases hsp : specSlice sl s.value with
+        have hsv : s.value = some vs := by rw [← habs]; exact hval
+        simp only [hsv] at h
+        cases hsp : specSlice sl vs with
         | none => simp [hsp] at h
         | some w =>
           simp only [hsp, Except.ok.injEq, Prod.mk.injEq] at h
           obtain ⟨rfl, rfl⟩ := h
-          rw [← habs, hval] at hsp
-          refine ⟨src, vs, ss, hreq, hgood, hvs, hconf, hsp, by simp [← habs, absN, absNode], rfl, by rw [habs]; exact hsel⟩
+          refine ⟨src, vs, ss, hreq, hgood, hvs, hconf, hsp, by simp [← habs, absN], rfl, by rw [habs]; exact hsel⟩
 
 end SciVerif.C17
